@@ -51,12 +51,12 @@ def optMapEq : Option (Hdrs σ) → Option (Hdrs σ) → Bool
 def mapEqBut (src : σ) (a b : Hdrs σ) : Bool :=
   (keys a ++ keys b).all fun k => decide (k = src) || decide (val a k = val b k)
 
-/-- a header present in both maps, not skipped (private `_…` or volatile), has different values -/
+/-- some header of `cur`, not skipped (private `_…` or volatile), is present in `new` with a different value -/
 def differs (skip : σ → Bool) (cur new : Hdrs σ) : Bool :=
-  (keys cur).any fun k => !(skip k) &&
-    (match val cur k, val new k with
-     | some a, some b => decide (a ≠ b)
-     | _, _ => false)
+  cur.any fun p => !(skip p.1) &&
+    (match get? new p.1 with
+     | some q => decide (p.2.2 ≠ q.2)
+     | none => false)
 
 /-- latest search headers overlaid by latest advertisement headers -/
 def overlaid (sh ah : Option (Hdrs σ)) : Hdrs σ :=
@@ -75,42 +75,63 @@ def flavours (cbs : List (Cb σ)) : Option (Option (Cb σ)) :=
        && decide (a.comb = b.comb) then some (some a) else none
   | _ => none
 
+/-- the sender as known at the time of the message: in the map and not expired at `t` (C03: a valid sighting
+    purges first) -/
+def knownAt (before : Snap σ) (u : σ) (t : Int) : Option (DevObs σ) :=
+  (findDev before u).filter fun d => decide (t ≤ d.validTo)
+
+/-- the previous message of the same kind (search / advertisement) and type, if the device is known -/
+def prevSame (m : Msg σ) (dB : Option (DevObs σ)) (pre : Look σ) : Option (Hdrs σ) :=
+  if dB.isSome then (if m.kind = .search then pre.sh else pre.ah) else none
+
+def prevOther (m : Msg σ) (dB : Option (DevObs σ)) (pre : Look σ) : Option (Hdrs σ) :=
+  if dB.isSome then (if m.kind = .search then pre.ah else pre.sh) else none
+
+/-- new device ∨ new type for the device ∨ a non-volatile header differs from the previous message of that kind and type -/
+def baseChange (skip : σ → Bool) (m : Msg σ) (ty : σ) (dB : Option (DevObs σ)) (pre : Look σ) : Bool :=
+  !dB.isSome || (!(pre.st.contains ty) && !(pre.adv.contains ty)) ||
+  (match prevSame m dB pre with
+   | some cur => differs skip cur m.hdrs
+   | none => false)
+
+def locsAll (dB : Option (DevObs σ)) : List (σ × Int) :=
+  match dB with
+  | some d => d.locs
+  | none => []
+
+/-- the notification is the one the text prescribes; `cA` / `cL` are the "changed" condition under the two
+    readings of "known location" -/
+def notifOk (m : Msg σ) (u ty : σ) (n : Option (Cb σ)) (cA cL : Bool) : Bool :=
+  match m.kind, n with
+  | .search, some c => decide (c.udn = u) && decide (c.ty = ty) &&
+      ((decide (c.source = .searchChanged) && (cA || cL)) || (decide (c.source = .searchAlive) && (!cA || !cL)))
+  | .search, none => false
+  | .alive, some c => decide (c.udn = u) && decide (c.ty = ty) && decide (c.source = .advAlive) && (cA || cL)
+  | .alive, none => !cA || !cL
+  | .update, some c => decide (c.udn = u) && decide (c.ty = ty) && decide (c.source = .advUpdate)
+  | .update, none => false
+  | .byebye, _ => false
+
+/-- after the message the headers stored for the message's side equal the message, the other side is what it was -/
+def storedOk (m : Msg σ) (post : Look σ) (other : Option (Hdrs σ)) : Bool :=
+  (match (if m.kind = .search then post.sh else post.ah) with
+   | some h => mapEq h m.hdrs
+   | none => false) && optMapEq (if m.kind = .search then post.ah else post.sh) other
+
+def combOk (src : σ) (n : Option (Cb σ)) (post : Look σ) : Bool :=
+  match n with
+  | some c => mapEqBut src c.comb (overlaid post.sh post.ah)
+  | none => true
+
 def sightingOk (ipv : σ → Option Nat) (skip : σ → Bool) (src : σ) (m : Msg σ) (u loc ty : σ)
     (before : Snap σ) (o : Obs σ) (n : Option (Cb σ)) : Bool :=
-  let dB := (findDev before u).filter fun d => decide (m.ts ≤ d.validTo)
-  let known := dB.isSome
-  let isSearch := decide (m.kind = .search)
-  let newType := !known || (!(o.pre.st.contains ty) && !(o.pre.adv.contains ty))
-  let locsAll : List (σ × Int) := match dB with
-    | some d => d.locs
-    | none => []
-  let locsLive := locsAll.filter fun p => decide (m.ts ≤ p.2)
-  let prevSame := if known then (if isSearch then o.pre.sh else o.pre.ah) else none
-  let prevOther := if known then (if isSearch then o.pre.ah else o.pre.sh) else none
-  let diff := match prevSame with
-    | some cur => differs skip cur m.hdrs
-    | none => false
-  let base := !known || newType || diff
-  let cA := base || locChanged ipv locsAll loc
-  let cL := base || locChanged ipv locsLive loc
-  let notifOk := match m.kind, n with
-    | .search, some c => decide (c.udn = u) && decide (c.ty = ty) &&
-        ((decide (c.source = .searchChanged) && (cA || cL)) || (decide (c.source = .searchAlive) && (!cA || !cL)))
-    | .search, none => false
-    | .alive, some c => decide (c.udn = u) && decide (c.ty = ty) && decide (c.source = .advAlive) && (cA || cL)
-    | .alive, none => !cA || !cL
-    | .update, some c => decide (c.udn = u) && decide (c.ty = ty) && decide (c.source = .advUpdate)
-    | .update, none => false
-    | .byebye, _ => false
-  let postSame := if isSearch then o.post.sh else o.post.ah
-  let postOther := if isSearch then o.post.ah else o.post.sh
-  let storedOk := (match postSame with
-      | some h => mapEq h m.hdrs
-      | none => false) && optMapEq postOther prevOther
-  let combOk := match n with
-    | some c => mapEqBut src c.comb (overlaid o.post.sh o.post.ah)
-    | none => true
-  decide (o.target = (some u, some ty)) && notifOk && storedOk && combOk
+  decide (o.target = (some u, some ty)) &&
+  notifOk m u ty n
+    (baseChange skip m ty (knownAt before u m.ts) o.pre || locChanged ipv (locsAll (knownAt before u m.ts)) loc)
+    (baseChange skip m ty (knownAt before u m.ts) o.pre ||
+      locChanged ipv ((locsAll (knownAt before u m.ts)).filter fun p => decide (m.ts ≤ p.2)) loc) &&
+  storedOk m o.post (prevOther m (knownAt before u m.ts) o.pre) &&
+  combOk src n o.post
 
 def byebyeOk4 (src : σ) (m : Msg σ) (u ty : σ) (before : Snap σ) (o : Obs σ) (n : Option (Cb σ)) : Bool :=
   let known := (findDev before u).isSome
